@@ -409,12 +409,15 @@ func raftLoopRules(c *Ctx, r *Report, ids map[string]string) *readyLoop {
 // ---- C03 -------------------------------------------------------------------------------
 
 func checkC03(c *Ctx, r *Report, tier string) {
-	r.Rule("C03.R1", "persist dominates apply, acknowledgement and Advance: one plain persist call per Ready taking HardState, Entries and Snapshot of the same Ready; it dominates every apply site and Advance; its error branch reaches none of them", 6)
+	r.Rule("C03.R1", "persist dominates apply, acknowledgement and Advance: one plain persist call per Ready taking HardState, Entries and Snapshot of the same Ready; it dominates every apply site and Advance; its error branch reaches none of them", 4)
 	r.Rule("C03.R2", "acknowledgement only from the apply tree: every function that calls Notificator.Notify is reachable from an apply root and from no RPC root / background loop", 8)
 	r.Rule("C03.R3", "a persist call that returns nil has flushed: in every batch function each return after the batch is created returns Flush()'s value or a tested non-nil error; Set/Delete results are never discarded; Cancel is deferred; the Badger options keep SyncWrites on", 8)
 	r.Rule("C03.R4", "the snapshot is labelled with what was applied: the snapshot function is invoked only on the Ready loop's goroutine; the index handed to CreateSnapshot derives only from applied entries' Index and an installed snapshot's Metadata.Index, recorded after the apply call", 2)
 	r.Rule("C03.R5", "recovery order: the stored snapshot is handed to the restore function before the Ready loop is spawned", 1)
 	r.Rule("C03.R6", "restart is not bootstrap: every StartNode call is control-dependent on a condition that reads the same Storage (log freshness)", 1)
+	for _, k := range []string{"persist-site", "persist-error", "apply-site", "advance"} {
+		r.Need("C03.R1", k, "the Ready loop's persist / apply / advance sites must all be found")
+	}
 	ids := map[string]string{"persist": "C03.R1", "fatal": "C03.R1", "dominates": "C03.R1"}
 	rl := raftLoopRules(c, r, ids)
 	ro := discoverRoles(c)
@@ -887,12 +890,21 @@ func condReadsStorage(v ssa.Value, depth int) bool {
 // ---- C05 -------------------------------------------------------------------------------
 
 func checkC05(c *Ctx, r *Report, tier string) {
-	r.Rule("C05.R1", "send discipline (etcd/raft host contract): every send of rd.Messages is dominated by the persist call or guarded by the leader test; messages are never dropped; the leader id is assigned once per Ready before both tests", 4)
-	r.Rule("C05.R2", "persist is one plain call on the same Ready, dominates every apply site, and its failure is fatal", 6)
+	r.Rule("C05.R1", "send discipline (etcd/raft host contract): every send of rd.Messages is dominated by the persist call or guarded by the leader test; messages are never dropped; the leader id is assigned once per Ready before both tests", 3)
+	r.Rule("C05.R2", "persist is one plain call on the same Ready, dominates every apply site, and its failure is fatal", 4)
 	r.Rule("C05.R3", "Advance exactly once per Ready, after every apply site, on every path back to the select", 1)
 	r.Rule("C05.R4", "every committed ConfChange reaches ApplyConfChange: the EntryConfChange branch of the in-order loop over CommittedEntries calls the handler with that entry; every non-error return of the handler is dominated by ApplyConfChange on the value unmarshalled from the entry", 3)
 	r.Rule("C05.R5", "restart is not bootstrap: StartNode only under a fresh-log test on the same Storage", 1)
 	r.Rule("C05.R7", "Step errors surface: the transport's receive path returns the error of Node.Step to the sender", 2)
+	for _, k := range []string{"send#", "send-complete"} {
+		r.Need("C05.R1", k, "the Ready loop's send sites must be found")
+	}
+	for _, k := range []string{"persist-site", "persist-error", "apply-site"} {
+		r.Need("C05.R2", k, "the Ready loop's persist / apply sites must be found")
+	}
+	for _, k := range []string{"committed-loop", "confchange-branch", "apply-conf-change"} {
+		r.Need("C05.R4", k, "the conf-change path must be found")
+	}
 	ids := map[string]string{"persist": "C05.R2", "fatal": "C05.R2", "dominates": "C05.R2", "send": "C05.R1", "advance": "C05.R3"}
 	rl := raftLoopRules(c, r, ids)
 	ro := discoverRoles(c)
@@ -900,7 +912,7 @@ func checkC05(c *Ctx, r *Report, tier string) {
 		c05R4(c, r, rl, ro)
 	}
 	startNodeRule(c, r, "C05.R5")
-	r.Rule("C05.R8", "the log store never tells raft about entries it does not have: every path from an entry write to a successful return updates (or discards) the cached last index", 3)
+	r.Rule("C05.R8", "the log store never tells raft about entries it does not have: every path from an entry write to a successful return updates (or discards) the cached last index", 1)
 	walCacheFollowsWrites(c, r, "C05.R8")
 	// R7: Step error propagation
 	for _, f := range c.FuncsInPkg("storage/raft") {
